@@ -218,6 +218,16 @@ add("FX-32", "e2606e1", "C02", "wf.rel_empty", "XMLReader.transform",
     put_plan("xml", '<feature-model><feature name="A"><binaryRelation name="R-1"><cardinality '
              'min="0" max="1"/></binaryRelation></feature></feature-model>', {"kind": "any"},
              "C09"))
+_p = ops_plan([{"op": "EXEC", "name": "FMMetrics", "m": "m1", "obj": "fresh"}],
+              [M(F("Root", [R(0, 1, F("Alpha")), R(0, 1, F("Beta")), R(0, 1, F("Gamma")),
+                            R(0, 1, F("Delta")), R(0, 1, F("Epsilon"))]),
+                 ["AND", ["AND", f("Alpha"), f("Beta")], ["AND", f("Gamma"), ["AND", f("Delta"),
+                                                                                f("Epsilon")]]])])
+_p["replicas"] = [{"env": {"hashseed": 1}, "disk_cfg": {}}, {"env": {"hashseed": 2}, "disk_cfg": {}},
+                  {"env": {"hashseed": 3}, "disk_cfg": {}}, {"env": {"hashseed": 4}, "disk_cfg": {}}]
+add("FX-33", "9bd5138", "C19", "op.replica_differs", "EXEC:FMMetrics",
+    "the 'Features in constraints' listing of the metrics report was built from a set: its order "
+    "(and the report) changed with PYTHONHASHSEED", _p)
 
 
 def main():
